@@ -518,6 +518,258 @@ proof {
 ''', label='next_match.exit'),
     ])
 
+
+advance_ci = Fn(
+    F_FMI, IMPL, 'advance_char_indices_beyond_match',
+    spec='''
+requires
+    (*old(char_indices)).obeys_prophetic_iter_laws(), (*old(char_indices)).decrease() is Some,
+    forall|j: int| 0 <= j < (*old(char_indices)).remaining().len() ==> (#[trigger] (*old(char_indices)).remaining()[j]).0 + clen((*old(char_indices)).remaining()[j].1) <= usize::MAX,
+ensures
+    (*final(char_indices)).obeys_prophetic_iter_laws(), (*final(char_indices)).decrease() is Some,
+    exists|k: int| 0 <= k <= (*old(char_indices)).remaining().len()
+        && (*final(char_indices)).remaining() == (*old(char_indices)).remaining().skip(k)
+        && #[trigger] adv_k((*old(char_indices)).remaining(), matched.span.start as int, matched.span.end as int, k),
+''',
+    props=['C11'],
+    edits=[
+        Ins('body_start', None, '''
+broadcast use axiom_clen_bounds;
+let ghost rem0 = (*char_indices).remaining();
+let ghost mut k: int = 0;
+proof { assert(rem0.skip(0) =~= rem0); }
+'''),
+        Ins('before', 'return;', '''
+proof { assert(adv_k(rem0, matched.span.start as int, matched.span.end as int, 0)); }
+'''),
+        ForLoop('for (i, c) in char_indices {', it=None, place='char_indices', by_ref=False, label='advance_ci.loop', spec='''
+invariant_except_break
+    forall|j: int| 0 <= j < k ==> (#[trigger] rem0[j]).0 + clen(rem0[j].1) < end,
+invariant
+    (*char_indices).obeys_prophetic_iter_laws(), (*char_indices).decrease() is Some,
+    0 <= k <= rem0.len(),
+    (*char_indices).remaining() == rem0.skip(k),
+    forall|j: int| 0 <= j < rem0.len() ==> (#[trigger] rem0[j]).0 + clen(rem0[j].1) <= usize::MAX,
+    end == matched.span.end, matched.span.start < matched.span.end,
+ensures
+    0 <= k <= rem0.len(),
+    (*char_indices).remaining() == rem0.skip(k),
+    adv_k(rem0, matched.span.start as int, end as int, k),
+decreases (*char_indices).decrease()->0
+''', body_pre='''
+broadcast use axiom_clen_bounds;
+'''),
+        Ins('after', 'for (i, c) in char_indices {', '''
+proof {
+    assert(rem0.skip(k)[0] == rem0[k]);
+    assert((i, c) == rem0[k]);
+    assert(rem0.skip(k).drop_first() =~= rem0.skip(k + 1));
+    k = k + 1;
+}
+'''),
+    ])
+
+PEEK_FRAME = '''
+    self.input == old(self).input, self.offset == old(self).offset, self.char_indices == old(self).char_indices,
+    self.line_offsets == old(self).line_offsets, self.last_char == old(self).last_char, self.last_position == old(self).last_position,
+    inp == self.input@, blen(inp) <= usize::MAX, s0 == old(self).scanner_impl, n0 == cur_n(*old(self)), m0 == cur_m(*old(self)),
+    fm_inv(*old(self)), scanner_wf(s0), mode_ok(s0),
+    same_config(s0, self.scanner_impl), self.scanner_impl.current_mode == s0.current_mode,
+    scanner_wf(self.scanner_impl), mode_ok(self.scanner_impl),
+    char_indices.obeys_prophetic_iter_laws(), char_indices.decrease() is Some,
+    0 <= m0 <= n0 <= q <= inp.len(), self.offset == boff(inp, m0),
+    char_indices.remaining() == ci_seq(inp.skip(q), (boff(inp, q) - boff(inp, m0)) as nat),
+'''
+
+peek_n = Fn(
+    F_FMI, IMPL, 'peek_n', ret='r',
+    spec='''
+requires fm_inv(*old(self))
+ensures
+    // no side effect on position, line bookkeeping or mode
+    fm_inv(*final(self)),
+    final(self).input == old(self).input, final(self).offset == old(self).offset, final(self).char_indices == old(self).char_indices,
+    final(self).line_offsets == old(self).line_offsets, final(self).last_char == old(self).last_char, final(self).last_position == old(self).last_position,
+    same_config(old(self).scanner_impl, final(self).scanner_impl),
+    final(self).scanner_impl.current_mode == old(self).scanner_impl.current_mode,
+    cur_n(*final(self)) == cur_n(*old(self)),
+    // the outcome
+    ({
+        let s0 = old(self).scanner_impl; let inp = old(self).input@; let n0 = cur_n(*old(self));
+        match r {
+            PeekResult::Matches(v) => v@.len() == n && no_switch(s0, v@, v@.len() as int) && exists|qe: int| toks_from(s0, inp, n0, v@, qe),
+            PeekResult::MatchesReachedEnd(v) => 0 < v@.len() < n && no_switch(s0, v@, v@.len() as int)
+                && exists|qe: int| toks_from(s0, inp, n0, v@, qe) && no_more(s0, inp, qe),
+            PeekResult::MatchesReachedModeSwitch((v, mode)) => 1 <= v@.len() <= n && no_switch(s0, v@, v@.len() - 1)
+                && tr_lookup(cur_trans(s0), v@.last().token_type) == Some(mode)
+                && exists|qe: int| toks_from(s0, inp, n0, v@, qe),
+            PeekResult::NotFound => n > 0 && no_more(s0, inp, n0),
+        }
+    }),
+''',
+    props=['C11', 'C06', 'C12'],
+    edits=[
+        Ins('body_start', None, '''
+let ghost inp = self.input@;
+let ghost s0 = self.scanner_impl;
+let ghost m0 = cur_m(*self);
+let ghost n0 = cur_n(*self);
+let ghost mut q: int = n0;
+let ghost mut qe: int = n0;
+let ghost mut cnt: int = 0;
+let ghost mut ended: bool = false;
+proof {
+    lemma_cur_cursor(*self);
+    axiom_str_blen(self.input);
+}
+''', label='peek_n.entry'),
+        ForLoop('for _ in 0..n {', it='__rng', label='peek_n.loop', spec='''
+invariant_except_break
+    __rng.remaining().len() == n - cnt,
+    no_switch(s0, matches@, cnt),
+    !mode_switch, !ended, q == qe,
+invariant
+    __rng.obeys_prophetic_iter_laws(), __rng.decrease() is Some,
+''' + PEEK_FRAME + '''
+    0 <= cnt <= n, matches@.len() == cnt,
+    toks_from(s0, inp, n0, matches@, qe),
+ensures
+''' + PEEK_FRAME + '''
+    matches@.len() <= n,
+    toks_from(s0, inp, n0, matches@, qe),
+    mode_switch ==> matches@.len() >= 1 && no_switch(s0, matches@, matches@.len() - 1) && tr_lookup(cur_trans(s0), matches@.last().token_type) == Some(new_mode),
+    !mode_switch ==> no_switch(s0, matches@, matches@.len() as int),
+    !mode_switch && matches@.len() != n ==> no_more(s0, inp, qe),
+decreases __rng.decrease()->0
+'''),
+        Ins('after', 'for _ in 0..n {', '''
+let ghost qs = q;
+''', label='peek_n.iteration'),
+        LoopSpec('loop {', label='peek_n.skip_loop', spec='''
+invariant
+''' + PEEK_FRAME + '''
+    qs <= q,
+    forall|q2: int| qs <= q2 < q ==> no_cand_at(s0, inp, q2),
+ensures
+''' + PEEK_FRAME + '''
+    qs <= q,
+    forall|q2: int| qs <= q2 < q ==> no_cand_at(s0, inp, q2),
+    find_post(cur_dfa(s0), cur_cls(s0), inp.skip(q), (boff(inp, q) - boff(inp, m0)) as nat, result),
+    result is None ==> q == inp.len(),
+decreases char_indices.decrease()->0
+'''),
+        Replace('E6', 'result = self.scanner_impl.peek_from(&self.input[$r], char_indices.clone());', '''
+{
+    proof {
+        axiom_utf8_boundary(self.input, m0);
+        axiom_utf8_boundary(self.input, inp.len() as int);
+        axiom_utf8_bytes_len(self.input);
+        lemma_boff_ends(inp);
+        lemma_boff_mono(inp, m0, inp.len() as int);
+    }
+    let __hay = &self.input[$r];
+    proof { axiom_utf8_suffix_view(self.input, __hay, m0); }
+    let __ci = char_indices.clone();
+    let ghost sb = self.scanner_impl;
+    let ghost rem = char_indices.remaining();
+    proof {
+        lemma_ci_at_slice(inp, m0, q, rem);
+        lemma_boff_mono(inp, m0, q);
+        lemma_boff_mono(inp, q, inp.len() as int);
+    }
+    result = self.scanner_impl.peek_from(__hay, __ci);
+    proof {
+        lemma_same_config_trans(s0, sb, self.scanner_impl);
+        assert(cur_dfa(sb) == cur_dfa(s0));
+        assert(cur_cls(sb) == cur_cls(s0));
+        assert(ci_at(rem, __hay@, q - m0));
+        assert(find_post(cur_dfa(s0), cur_cls(s0), inp.skip(q), (boff(inp, q) - boff(inp, m0)) as nat, result));
+    }
+}''', why='argument expressions let-bound in evaluation order so that ghost code can name the haystack slice'),
+        Replace('E6', 'if result.is_some() || char_indices.next().is_none() { break; }', '''
+if result.is_some() { break; }
+let ghost rem_b = char_indices.remaining();
+let __nx = char_indices.next();
+proof {
+    if q < inp.len() {
+        lemma_ci_seq_step(inp, q, (boff(inp, q) - boff(inp, m0)) as nat);
+        lemma_boff_next(inp, q);
+        lemma_boff_mono(inp, m0, q);
+    }
+    lemma_ci_seq_len(inp.skip(q), (boff(inp, q) - boff(inp, m0)) as nat);
+}
+if __nx.is_none() {
+    proof { assert(q == inp.len()); }
+    break;
+}
+proof {
+    assert(no_cand_at(s0, inp, q));
+    q = q + 1;
+}
+''', why='short-circuit `a || b` with a side effect in `b` written as two ifs (same evaluation order)'),
+        Ins('after', 'if let Some(mut matched) = result {', '''
+let ghost l = lemma_find_post_len(cur_dfa(s0), cur_cls(s0), inp.skip(q), (boff(inp, q) - boff(inp, m0)) as nat, matched);
+let ghost m_rel = matched;
+let ghost rem_b = char_indices.remaining();
+let ghost old_matches = matches@;
+proof {
+    lemma_boff_split(inp, q, l);
+    lemma_boff_mono(inp, q + l, inp.len() as int);
+    lemma_boff_mono(inp, m0, q);
+    assert(matched.span.end + self.offset == boff(inp, q + l));
+    lemma_ci_seq_len(inp.skip(q), (boff(inp, q) - boff(inp, m0)) as nat);
+    assert forall|j: int| 0 <= j < rem_b.len() implies (#[trigger] rem_b[j]).0 + clen(rem_b[j].1) <= usize::MAX by {
+        lemma_ci_seq_at(inp, m0, q, j);
+        lemma_boff_next(inp, q + j);
+        lemma_boff_mono(inp, q + j + 1, inp.len() as int);
+    }
+}
+''', label='peek_n.matched'),
+        Ins('after_stmt', 'Self::advance_char_indices_beyond_match(&mut char_indices, matched);', '''
+let ghost k = choose|k: int| 0 <= k <= rem_b.len() && char_indices.remaining() == rem_b.skip(k)
+    && #[trigger] adv_k(rem_b, m_rel.span.start as int, m_rel.span.end as int, k);
+proof {
+    lemma_adv_k_target(inp, m0, q, m_rel.span.start as int, m_rel.span.end as int, k);
+    lemma_adv_target_boundary(inp, q, q + l, q + k);
+    lemma_ci_seq_skip(inp, m0, q, k);
+}
+''', label='peek_n.advanced'),
+        Ins('after_stmt', 'matches.push(matched);', '''
+proof {
+    lemma_find_post_shift(cur_dfa(s0), cur_cls(s0), inp.skip(q), (boff(inp, q) - boff(inp, m0)) as nat, boff(inp, m0), m_rel, matched);
+    assert(tok_at(s0, inp, q, matched));
+    assert(is_next_tok(s0, inp, qs, matched, q + l));
+    assert(matches@.drop_last() =~= old_matches);
+    assert(matches@.last() == matched);
+    assert(toks_from(s0, inp, n0, matches@, q + l));
+    assert(cur_trans(s0) == self.scanner_impl.scanner_modes@[self.scanner_impl.current_mode as int].transitions@);
+    assert forall|i: int| 0 <= i < cnt implies tr_lookup(cur_trans(s0), (#[trigger] matches@[i]).token_type) is None by {
+        assert(matches@[i] == old_matches[i]);
+    }
+    q = q + l;
+    qe = q;
+    cnt = cnt + 1;
+}
+''', label='peek_n.pushed'),
+        Ins('after', '} else {', '''
+proof {
+    ended = true;
+    assert forall|q2: int| qs <= q2 <= inp.len() implies no_cand_at(s0, inp, q2) by {
+        if q2 == inp.len() {
+            assert forall|l: int, tid: TerminalID| !#[trigger] cand(cur_dfa(s0), cur_cls(s0), inp.skip(q2), l, tid) by { }
+        }
+    }
+}
+''', occ=1, label='peek_n.no_more'),
+        Ins('before', 'if mode_switch {', '''
+proof {
+    assert(cursor(*self, m0, n0));
+    lemma_cur_is(*self, m0, n0);
+    lemma_same_config_wf(s0, self.scanner_impl);
+}
+''', occ=1, label='peek_n.classify'),
+    ])
+
 offset_fn = Fn(F_FMI, IMPL, 'offset', ret='r',
                spec='requires fm_inv(*self)\nensures r == self.last_position + self.offset',
                edits=[Ins('body_start', None, 'proof { axiom_str_blen(self.input); lemma_cur_cursor(*self); lemma_boff_mono(self.input@, cur_n(*self), self.input@.len() as int); }')], props=['C10'])
@@ -589,6 +841,7 @@ pub struct CharacterClassRegistry { _private: () }
         Struct(mode.F_SI, 'ScannerImpl', derive=[], dyn_param='M'),
         RawFile('../u_mode/mode_spec.rs'),
         Struct(F_FMI, 'FindMatchesImpl', derive=[]),
+        Enum(F_FM, 'PeekResult'),
         RawFile('iter_spec.rs'),
     ] + VALUE_FNS + CONTRACTS + [
         merge_line_offsets,
@@ -599,6 +852,8 @@ pub struct CharacterClassRegistry { _private: () }
         advance_to,
         advance_beyond_match,
         next_match,
+        advance_ci,
+        peek_n,
         offset_fn,
         fmi_current_mode,
         fmi_set_mode,
